@@ -3,8 +3,8 @@
     detection models of C10 / C11) builds from the go/types facts of the program - node by node, kinds,
     members, children and source order (Corr/Check_C12.v:chk_model). Without it a defect of the analysis
     would make the observed graph the reference of the dependent property and go unnoticed there. *)
-From Coq Require Import List String ZArith Bool.
-From GM Require Import Base.Result Facts.GoFacts Facts.Ana Model.Enums Model.Unions Model.Classify Corr.Check_C10 Corr.Check_C12.
+From Coq Require Import List String ZArith Bool NArith.
+From GM Require Import Base.Result Facts.GoFacts Facts.Ana Model.Enums Model.Unions Model.Classify Model.Fields Model.Dart Corr.Check_C10 Corr.Check_C12.
 Import ListNotations.
 
 Definition ana_cross (pr : prog) (a : ana_obs) : bool :=
@@ -18,4 +18,19 @@ Definition enums_cross (pr : prog) (obs : list enum) : bool :=
   | _ => true
   end.
 
-Definition ana_cross_e (pr : prog) (obs : list enum) (a : ana_obs) : bool := ana_cross pr a && enums_cross pr obs.
+(** ... and what the analysis says of every field (StructField.Exported, StructField.JSONName) must be what the model
+    of C09 (Model/Fields.v) computes from its name and tag *)
+Definition fields_cross (a : ana_obs) : bool :=
+  forallb (fun n => forallb (fun f => contains "\" (af_tag f)     (* escapes in a tag: outside the byte-level model of StructTag.Get *)
+                                      || (Bool.eqb (exported (sfield_of f)) (af_exported f)
+                                          && String.eqb (json_name (sfield_of f)) (af_json f))) (nr_fields n)) (ao_nodes a).
+
+Definition ana_cross_e (pr : prog) (obs : list enum) (a : ana_obs) : bool := ana_cross pr a && enums_cross pr obs && fields_cross a.
+
+(** stand-alone use: one case per module (program facts, observed enum table, observed analysis) *)
+Fixpoint mism_from (n : N) (cases : list (prog * list enum * ana_obs)) : list N :=
+  match cases with
+  | [] => []
+  | (pr, en, a) :: r => if ana_cross_e pr en a then mism_from (N.succ n) r else n :: mism_from (N.succ n) r
+  end.
+Definition mismatches := mism_from 0%N.
